@@ -60,14 +60,14 @@ public:
 
     // look for all three special specifiers
 
-    if (size_t const search_qms = _time_format.find(specifier_name[AdditionalSpecifier::Qms]);
+    if (size_t const search_qms = _find_specifier(_time_format, specifier_name[AdditionalSpecifier::Qms]);
         search_qms != std::string::npos)
     {
       _additional_format_specifier = AdditionalSpecifier::Qms;
       specifier_begin = search_qms;
     }
 
-    if (size_t const search_qus = _time_format.find(specifier_name[AdditionalSpecifier::Qus]);
+    if (size_t const search_qus = _find_specifier(_time_format, specifier_name[AdditionalSpecifier::Qus]);
         search_qus != std::string::npos)
     {
       if (specifier_begin != std::string::npos)
@@ -79,7 +79,7 @@ public:
       specifier_begin = search_qus;
     }
 
-    if (size_t const search_qns = _time_format.find(specifier_name[AdditionalSpecifier::Qns]);
+    if (size_t const search_qns = _find_specifier(_time_format, specifier_name[AdditionalSpecifier::Qns]);
         search_qns != std::string::npos)
     {
       if (specifier_begin != std::string::npos)
@@ -187,6 +187,33 @@ private:
     // _formatted_date.size() - extracted_ms_string.size() is where we want to begin placing the fractional seconds
     memcpy(&_formatted_date[_formatted_date.size() - extracted_ms_string.size()],
            extracted_ms_string.data(), extracted_ms_string.size());
+  }
+
+private:
+  /**
+   * Finds a specifier in the format, ignoring an occurrence whose percent sign is itself escaped (%%Qms)
+   */
+  QUILL_NODISCARD static size_t _find_specifier(std::string const& format, char const* specifier) noexcept
+  {
+    size_t pos = format.find(specifier);
+
+    while (pos != std::string::npos)
+    {
+      size_t preceding_percents{0};
+      while ((preceding_percents < pos) && (format[pos - preceding_percents - 1] == '%'))
+      {
+        ++preceding_percents;
+      }
+
+      if ((preceding_percents % 2) == 0)
+      {
+        return pos;
+      }
+
+      pos = format.find(specifier, pos + 1);
+    }
+
+    return std::string::npos;
   }
 
 private:
